@@ -16,7 +16,7 @@ LEVEL = 'exploration'
 LEVEL_TEXT = ('seeded search over generated model sets: the signature is written by one process and read by another under a different hash seed and clock; sampling over inputs, not exhaustive')
 TECHNIQUE = ('deterministic simulation of the store/load process boundary under hash-seed and clock variation, in-child equality probes + byte comparison of stored text')
 PLAN = {
-    'quick': {'count': 300, 'max_wall': 170, 'shrink_budget': 40,
+    'quick': {'count': 700, 'max_wall': 170, 'shrink_budget': 40,
               'shrink_wall': 100},
     'thorough': {'count': 6000, 'max_wall': 1200, 'shrink_budget': 80,
                  'shrink_wall': 300},
